@@ -98,8 +98,9 @@ def verify_triple(ctx, W, fnpath, bb, S):
     return None
 
 
-def expand_data(W, data):
-    """Flatten buffer objects inside a data sequence into their append history."""
+def expand_data(W, data, depth=0):
+    """Flatten buffer objects inside a data sequence into their append history; a buffer built by a crate-local helper
+    function is expanded through the helper's return value with its parameters bound."""
     out = []
     for d in data:
         if isinstance(d, tuple) and d and d[0] == "obj":
@@ -107,6 +108,12 @@ def expand_data(W, data):
             if seq is None:
                 return None
             out.extend(seq)
+        elif is_call(d) and d[1] in W.prog.fns and depth < 3:
+            r = W.ev(d[1]).ret()
+            inner = expand_data(W, [r], depth + 1)
+            if inner is None:
+                return None
+            out.extend(W.bind_params(x, d[1], list(d[2])) for x in inner)
         else:
             out.append(d)
     return out
@@ -391,8 +398,8 @@ def run(ctx):
         # and under pub_key.is_some()
         IN = flow.must_facts(pfn, pev)
         rels = flow.rel_facts_at(IN, b)
-        has = any(r[0] == "Pred" and r[1] == "is_some" and values.strip_payload(r[2]) == ("field", ("param", pfn.path, 1), "pub_key")
-                  for r in rels)
+        from lib import fact_is_present
+        has = fact_is_present(rels, lambda x: x == ("field", ("param", pfn.path, 1), "pub_key"))
         ctx.check("verified-flag", "true-only-with-key", has, "`verified = true` only under pub_key.is_some()",
                   "`verified = true` is not guarded by pub_key.is_some()", pfn.loc(b))
 
